@@ -125,17 +125,20 @@ func pipelineSetup(s *rt.Sim, tier string) func() {
 		resultsClosed, errorsClosed := false, false
 		go func() {
 			for item := range p.Results() {
+				// read the item first: its accessors take a lock (a scheduling point), and the
+				// main task polls b.results, so the record is updated only when it is complete
+				valid, appliedFlag := item.IsValid(), item.IsApplied()
 				if b := byIdx[item.Tip().BlockNumber]; b != nil {
+					b.resValid = valid
 					b.results++
-					b.resValid = item.IsValid()
 					if b.resValid {
 						rt.Hit("pl.block-validated")
 					}
-					if !b.good && item.IsApplied() {
+					if !b.good && appliedFlag {
 						rt.Violate("C42/failed-block-applied", "block %d does not decode but its result says applied", b.idx)
 					}
-					if b.valFail && (item.IsApplied() || item.IsValid()) {
-						rt.Violate("C42/failed-block-applied", "block %d cannot validate (no epoch nonce) but its result says valid=%v applied=%v", b.idx, item.IsValid(), item.IsApplied())
+					if b.valFail && (appliedFlag || valid) {
+						rt.Violate("C42/failed-block-applied", "block %d cannot validate (no epoch nonce) but its result says valid=%v applied=%v", b.idx, valid, appliedFlag)
 					}
 				}
 			}
@@ -343,7 +346,7 @@ func pipelineSetup(s *rt.Sim, tier string) func() {
 					want = 0 // did not validate: never applied
 				}
 				if len(b.applyStart) != want {
-					rt.Violate("C42/apply-count", "%s: block %d (decodable=%v) was applied %d times", desc, b.idx, b.good, len(b.applyStart))
+					rt.Violate("C42/apply-count", "%s: block %d (decodable=%v, nonce refused=%v, result says valid=%v) was applied %d times, expected %d", desc, b.idx, b.good, b.valFail, b.resValid, len(b.applyStart), want)
 					return
 				}
 				if b.results != 1 {
